@@ -62,11 +62,11 @@ def make_name_hook(index, module, hooks_of):
     consts: dict = {}
 
     def name_hook(name, env, _mod=None):
-        mod = _mod or module
+        mod = _mod or (env.get("__sa_module__") if isinstance(env, dict) else None) or module   # a helper's free names belong to the module it is defined in
         if name in ("np", "numpy"):
             return NP_NAMESPACE
         if name in mod.functions:
-            return Closure(mod.functions[name].node, {})
+            return Closure(mod.functions[name].node, {"__sa_module__": mod})
         if name in mod.assigns:
             key = (mod.name, name)
             if key not in consts:
@@ -173,11 +173,11 @@ class AbstractClass:
 
         def name_hook(name, env, _mod=None):
             "free names of the analysed methods: functions / constants of the class's module, names it imports from other modules of the package, `np`"
-            mod = _mod or self.cls.module
+            mod = _mod or (env.get("__sa_module__") if isinstance(env, dict) else None) or self.cls.module
             if name in ("np", "numpy"):
                 return NP_NAMESPACE
             if name in mod.functions:
-                return Closure(mod.functions[name].node, {})
+                return Closure(mod.functions[name].node, {"__sa_module__": mod})
             if name in mod.assigns:
                 key = (mod.name, name)
                 if key not in self._consts:
